@@ -40,12 +40,17 @@ ITEMS: Dict[str, Tuple[str, int, int, Optional[int]]] = {
 }
 for _n, (_f, _s, _a) in NESTED.items():
     ITEMS[_n] = (_n, _s, _a, None)
+# field-list reuse copies used as field types (a copy must keep the layout properties of its source)
+REUSE = {"RN1": "N1", "RN2": "N2", "RN4b": "N4b", "RN5": "N5"}
+for _r, _src in REUSE.items():
+    ITEMS[_r] = (_r, NESTED[_src][1], NESTED[_src][2], None)
+ITEMS["RN2x3"] = ("RN2[3]", NESTED["N2"][1], NESTED["N2"][2], 3)
 for _n in ("N1", "N2", "N8", "N5"):
     ITEMS[_n + "x3"] = (f"{_n}[3]", NESTED[_n][1], NESTED[_n][2], 3)
     ITEMS[_n + "x2"] = (f"{_n}[2]", NESTED[_n][1], NESTED[_n][2], 2)
 
 FULL = list(ITEMS)
-SMALL = ["c1", "i2", "i4", "f8", "c1x3", "N1", "N2", "N8", "i2x3", "N5x3"]
+SMALL = ["c1", "i2", "i4", "f8", "c1x3", "N1", "N2", "N8", "i2x3", "N5x3", "RN2", "RN1"]
 
 
 def sequences(tier: str) -> List[Tuple[str, ...]]:
@@ -86,7 +91,9 @@ def reference_layout(seq: Tuple[str, ...]) -> Dict[str, Any]:
 
 
 def nested_sections() -> Dict[str, Any]:
-    return {n: {"fields": dict(f)} for n, (f, _s, _a) in NESTED.items()}
+    d = {n: {"fields": dict(f)} for n, (f, _s, _a) in NESTED.items()}
+    d.update({r: {"fields": src} for r, src in REUSE.items()})
+    return d
 
 
 def fields_of(seq) -> Dict[str, str]:
